@@ -113,8 +113,8 @@ def main():
     forb = V.scan_forbidden()
     known, _ = V.known_findings(CID)
     quick = rep.tier == "quick"
-    budget = 120000 if quick else 2500000
-    ndes = 110 if quick else 1400
+    budget = 120000 if quick else 600000
+    ndes = 160 if quick else 1200
 
     metas = load_corpus()
     if "--replay" in sys.argv:
